@@ -261,8 +261,46 @@ func TestC03(t *testing.T) {
 				}
 			}
 		}
+		// 3c. sibling ladders: one parent holding 3..6 sibling containers whose sizes are fractions
+		// of a big first sibling (sibling containers of one parent are decoded by one pooled child
+		// reader: what it keeps of the big one - a backing array, a slab, a hint - must not end up
+		// shared between the later siblings)
+		if e.enumStage("sibling-ladders", "parents (array, or object \"rows\") of 3..6 sibling arrays / objects: a big first sibling (100, 300, 5000, 20000, 70000 members) then siblings of 0, 3, 1/100 .. 2x its size, 24 (thorough 1500) pseudo-random ladders per big size", true) {
+			per := e.cfg.Pick(24, 1500)
+			idx := 0
+			state := uint64(0x5151515151)
+		ladders:
+			for _, big := range []int64{100, 300, 5000, 20000, 70000} {
+				n := per
+				if big == 20000 && !e.cfg.Thorough() {
+					n = per / 6
+				}
+				for k := 0; k < n; k++ {
+					idx++
+					state = splitmix(state)
+					if !e.cfg.Mine(idx) {
+						continue
+					}
+					x := state
+					draw := func(n uint64) uint64 { v := x % n; x = splitmix(x); return v }
+					variant := int64(0)
+					if big <= 5000 {
+						variant = int64(draw(2))
+					}
+					ints := []int64{variant, int64(k) * 31, big}
+					for n := 2 + draw(4); n > 0; n-- {
+						ints = append(ints, []int64{0, 3, big / 100, big / 10, big / 5, big/4 - 1, big/4 + 1, big / 3, big / 2, big/2 + 1, big * 6 / 10, big * 9 / 10, big, big + 1, 64, 4097, big * 2}[draw(17)])
+					}
+					kind := []string{"ReadValue", "ReadObject", "ReadArray"}[draw(3)]
+					doc, _ := c15SizedDoc(kind, ints)
+					if !run("sibling-ladders", doc) {
+						break ladders
+					}
+				}
+			}
+		}
 		// 4. shared byte-level generators (exactly-when direction, depth limit)
-		e.feed(feedOpts{counts: 1, shortlexQ: 3, shortlexT: 5, sweepQ: 180, sweepT: 12000, sweepMaxLen: 72, nestQ: 40, nestT: 800, indentQ: 10, indentT: 300, numShapes: 2, strRuns: true, tokenSweepQ: 30, templateSweep: true, amplify: true,
+		e.feed(feedOpts{counts: 1, shortlexQ: 3, shortlexT: 5, sweepQ: 150, sweepT: 12000, sweepMaxLen: 72, nestQ: 40, nestT: 800, indentQ: 10, indentT: 300, numShapes: 2, strRuns: true, tokenSweepQ: 30, templateSweep: true, amplify: true,
 			nestDepths: []int{1, 2, 3, 5, 64, 9999, 10000, 10001, 10002}, depthSitesLite: true, nextByte: true, alignment: true, boundaries: true, boundaryQ: 1}, eval)
 	})
 }
